@@ -16,9 +16,9 @@
     Status: the full statement is FALSE of the code ([C20_refuted], and
     [C20_refuted_expanded] for the classes that need an expansion pass to
     show); it is proved for every name outside [Known_C20] ([C20_partial]),
-    except that names holding a double quote completed inside double quotes
-    are correct in the implementation but not covered by the proof
-    ([Unproved_C20]; correspondence layers only). *)
+    including names that end in white space (repaired by 675add7, regression
+    [C20_trailing_blank_regression]) and names holding a double quote completed
+    inside double quotes (written there as backslash + quote). *)
 From Cicada Require Import Base.Chars Base.Tag Gen.EscapeClass Model.Tokenizer Model.Redirect Model.Cmds Model.Complete
   Proofs.TokenizerProofs Proofs.TokenizerEscProofs Proofs.CompleteProofs Proofs.WordStartProofs Proofs.CandidatesProofs.
 From Coq Require Import Sorting.Permutation.
@@ -29,20 +29,29 @@ Definition C20_full : Prop :=
   forall q cmd name d, cmd_word cmd = true -> valid_filename name = true ->
     run_line expand (completed_line q cmd name d) = Some [cmd; arg_of name d].
 
-(** refuted already with expansion passes that do nothing: the file  x<blank>  completed unquoted *)
+(** refuted already with expansion passes that do nothing: the file  &  completed unquoted *)
 Theorem C20_refuted : ~ C20_full.
 Proof.
-  intros H. specialize (H (fun x => x) (fun _ _ _ _ => eq_refl) Unq [104; 112] [120; 32] false eq_refl eq_refl).
+  intros H. specialize (H (fun x => x) (fun _ _ _ _ => eq_refl) Unq [104; 112] [38] false eq_refl eq_refl).
   vm_compute in H. discriminate H.
 Qed.
 
 (** one witness per class of known_findings.txt that shows without any expansion:
-    x<blank> and & unquoted, it's inside single quotes, a\ inside double quotes *)
+    & unquoted, it's inside single quotes, a\ inside double quotes *)
 Theorem C20_refuted_witnesses :
-  run_line (fun x => x) (completed_line Unq [104;112] [120;32] false) = Some [[104;112]; [120]] /\
   run_line (fun x => x) (completed_line Unq [104;112] [38] false) = None /\
   run_line (fun x => x) (completed_line InSq [104;112] [105;116;39;115] false) = Some [[104;112]; [105;116;92;115]] /\
   run_line (fun x => x) (completed_line InDq [104;112] [97;92] false) = Some [[104;112]; [97;34]].
+Proof. repeat split; vm_compute; reflexivity. Qed.
+
+(** regression for the repaired class unq-trailing-blank (675add7): files named
+    x<blank>, x<TAB>, x<NBSP>, <blank><blank> completed unquoted are read back *)
+Example C20_trailing_blank_regression :
+  run_line (fun x => x) (completed_line Unq [104;112] [120;32] false) = Some [[104;112]; [120;32]] /\
+  run_line (fun x => x) (completed_line Unq [104;112] [120;9] false) = Some [[104;112]; [120;9]] /\
+  run_line (fun x => x) (completed_line Unq [104;112] [120;160] false) = Some [[104;112]; [120;160]] /\
+  run_line (fun x => x) (completed_line Unq [104;112] [32;32] false) = Some [[104;112]; [32;32]] /\
+  Known_C20 Unq [120;32] false = false.
 Proof. repeat split; vm_compute; reflexivity. Qed.
 
 (** expand_home of shell.rs on its own (an untagged token with a leading tilde gets
@@ -73,7 +82,7 @@ Qed.
     expansion passes honouring their guards, files and directories, three contexts *)
 Theorem C20_partial : forall expand q cmd name d,
   honours_guards expand -> cmd_word cmd = true -> valid_filename name = true ->
-  Known_C20 q name d = false -> Unproved_C20 q name = false ->
+  Known_C20 q name d = false ->
   run_line expand (completed_line q cmd name d) = Some [cmd; arg_of name d].
 Proof. exact round_trip_partial. Qed.
 
@@ -86,6 +95,12 @@ Theorem C20_parse_escaped : forall (cls : char -> bool),
 Proof. exact parse_line_escaped. Qed.
 
 (** ... and escape_path's class (generated from the source) is such a class *)
+(** a double quote written as backslash + quote inside a double-quoted word *)
+Theorem C20_parse_dq_escaped : forall cmd t,
+  plain_word cmd = true -> forallb arith_body cmd = false -> has_cls KBs t = false ->
+  parse_line (cmd ++ c_space :: c_dq :: dq_esc t ++ [c_dq]) = [(TNone, cmd); (TDq, t)].
+Proof. exact parse_line_dq_escaped. Qed.
+
 Theorem C20_escape_class_covers : forall c, in_escape_class c = false -> classify c = KOther.
 Proof. exact escape_class_covers. Qed.
 
@@ -111,14 +126,15 @@ Proof. exact candidates_exact. Qed.
 
 Check C20_partial : forall expand q cmd name d,
   honours_guards expand -> cmd_word cmd = true -> valid_filename name = true ->
-  Known_C20 q name d = false -> Unproved_C20 q name = false ->
+  Known_C20 q name d = false ->
   run_line expand (completed_line q cmd name d) = Some [cmd; arg_of name d].
 
 (** Non-vacuity: the file  a b#c|d  (blank, hash, bar) in the three contexts, and a directory *)
 Example C20_nonvacuous :
-  let cmd := [104;112] in let name := [97;32;98;35;99;124;100] in
+  let cmd := [104;112] in let name := [97;32;98;35;99;124;100] in let qn := [113;34;114;32] in
   cmd_word cmd = true /\ valid_filename name = true /\
   Known_C20 Unq name false = false /\ Known_C20 InSq name true = false /\ Known_C20 InDq name false = false /\
+  Known_C20 InDq qn false = false /\ run_line (fun x => x) (completed_line InDq cmd qn false) = Some [cmd; qn] /\
   run_line (fun x => x) (completed_line Unq cmd name false) = Some [cmd; name] /\
   completed_line InSq cmd name true = [104;112;32;39;97;32;98;35;99;124;100;47;39].
 Proof. vm_compute. repeat split. Qed.
@@ -131,3 +147,5 @@ Print Assumptions C20_parse_escaped.
 Print Assumptions C20_escape_class_covers.
 Print Assumptions C20_word_start_boundary.
 Print Assumptions C20_candidates.
+Print Assumptions C20_parse_dq_escaped.
+Print Assumptions C20_trailing_blank_regression.
